@@ -322,7 +322,7 @@ impl Generator {
         #[cfg(kaspar030_laze_verif)]
         crate::verif_oracle::fault("after_ninja_flushed");
         let build_dir = self.build_dir.clone();
-        let result = GenerateResult::new(self, builds, treestate);
+        let result = GenerateResult::new(self, builds, treestate, load_stats.absent_files);
         if load_stats.changed_while_loading {
             println!("laze: build files changed while they were read, not writing cache");
         } else {
@@ -1148,6 +1148,8 @@ pub struct GenerateResult {
     disable: Option<Vec<String>>,
     cli_env_hash: u64,
     treestate: FileTreeState,
+    /// files that did not exist when the project was loaded and must not exist now
+    absent_files: Vec<std::path::PathBuf>,
     partitioner: Option<String>,
 }
 
@@ -1156,6 +1158,7 @@ impl GenerateResult {
         generator: Generator,
         build_infos: BuildInfoList,
         treestate: FileTreeState,
+        absent_files: Vec<std::path::PathBuf>,
     ) -> GenerateResult {
         GenerateResult {
             mode: generator.mode,
@@ -1166,6 +1169,7 @@ impl GenerateResult {
             cli_env_hash: generator.cli_env.as_ref().map_or(0, utils::calculate_hash),
             build_infos,
             treestate,
+            absent_files,
             partitioner: generator.partitioner,
         }
     }
@@ -1262,7 +1266,7 @@ impl TryFrom<&Generator> for GenerateResult {
         if res.cli_env_hash != generator.cli_env.as_ref().map_or(0, utils::calculate_hash) {
             return Err(anyhow!("laze: CLI env doesn't match"));
         }
-        if res.treestate.has_changed() {
+        if res.treestate.has_changed() || res.absent_files.iter().any(|file| file.exists()) {
             return Err(anyhow!("laze: build files have changed"));
         }
         // list the builds in the order a fresh run for these builders would
